@@ -272,6 +272,18 @@ def live_schema(links: dict, responses_extra: tuple = ()) -> dict:
     }
 
 
+def twin_raw() -> dict:
+    """Two SOURCE operations whose labels differ only in a non-word character, each with its own link under the same key."""
+    raw = live_schema({})
+    post = raw["paths"].pop("/users")["post"]
+    geta = L(BY_ID("getUser"), {"id": "$response.body#/id", "query.via": "aa"})
+    putb = L(BY_REF("put"), {"path.id": "$response.body#/id"}, {"name": "$response.body#/name", "tag": "bb"})
+    for path, op_id, links in (("/user-profiles", "createA", {"geta": geta}), ("/user_profiles", "createB", {"putb": putb})):
+        raw["paths"][path] = {"post": dict(copy.deepcopy(post), operationId=op_id,
+                                           responses={"201": {"description": "ok", "links": links}, "default": {"description": "err"}})}
+    return raw
+
+
 def L(target: dict, parameters: dict | None = None, body=None, merge: bool | None = None) -> dict:
     link = dict(target)
     if parameters is not None:
@@ -335,6 +347,10 @@ FAMILIES: dict[str, dict] = {
     "request-as-body": {"links": {"201": {
         "put": L(BY_REF("put"), {"path.id": "$response.body#/id"}, "$request.body"),
         "get": L(BY_ID("getUser"), {"id": "$response.body#/id", "query.q": "$response.body#/extra", "query.via": "$request.body#/extra"})}}},
+    # two source operations with labels that only differ in "-" / "_": a link may only be fed by responses of ITS OWN source
+    "twin-sources": {"raw": "twin", "sources": {"geta": "/user-profiles", "putb": "/user_profiles"}, "extra": ("default",), "links": {"201": {
+        "geta": L(BY_ID("getUser"), {"id": "$response.body#/id", "query.via": "aa"}),
+        "putb": L(BY_REF("put"), {"path.id": "$response.body#/id"}, {"name": "$response.body#/name", "tag": "bb"})}}},
     # status routing: exact, wildcard and default keys next to documented keys without links
     "status-keys": {"links": {"201": {"exact": L(BY_ID("getUser"), {"id": "$response.body#/id", "query.via": "ex"})},
                               "4XX": {"wild": L(BY_ID("getUser"), {"id": "$response.body#/id", "query.via": "wi"})},
@@ -347,6 +363,8 @@ def build_schema(fam: dict):
     """The family's document, loaded by the real loader; links come from the document or, for `api` families, from schema.add_link."""
     import schemathesis
 
+    if fam.get("raw") == "twin":
+        return schemathesis.openapi.from_dict(twin_raw())
     if not fam.get("api"):
         return schemathesis.openapi.from_dict(live_schema(fam["links"], fam.get("extra", ())))
     schema = schemathesis.openapi.from_dict(live_schema({}, tuple(fam["links"]) + tuple(fam.get("extra", ()))))
@@ -379,9 +397,11 @@ def run_live(name: str, fam: dict, seed: int, examples: int) -> list[dict]:
     counter = [0]
 
     def behaviour(rec):
-        if rec.method == "POST" and rec.path == "/users":
+        if rec.method == "POST" and rec.path in ("/users", "/user-profiles", "/user_profiles"):
             counter[0] += 1
             n = (counter[0] - 1) % 9 + 1
+            if rec.path != "/users":  # the twin sources hand out distinguishable ids: 1-4 and 5-9
+                n = (counter[0] - 1) % 4 + 1 if rec.path == "/user-profiles" else (counter[0] - 1) % 5 + 5
             status = statuses[(counter[0] - 1) % len(statuses)]
             body = {"id": n, "name": "n%d" % n, "tags": ["ta", "tb"], "k/1": "sx", "nested": {"ids": [7, n]}}
             out = (status, [("Content-Type", "application/json"), ("Location", "/users/%d" % n), ("X-Rid", "r%d" % n)], json.dumps(body).encode())
@@ -430,7 +450,9 @@ def run_live(name: str, fam: dict, seed: int, examples: int) -> list[dict]:
             if len(by_target) == 1 and by_target[0] != (key, lname):
                 foreign.append("request %s %s carries the recorded transition %r" % (log[cid].method, log[cid].target, node.transition.id))
                 key, lname = by_target[0]
-            records.append(live_record(name, key, lname, links[(key, lname)], all_keys, log[node.parent_id], sent, log[cid], base))
+            r = live_record(name, key, lname, links[(key, lname)], all_keys, log[node.parent_id], sent, log[cid], base)
+            r["src"], r["from"] = fam.get("sources", {}).get(lname, "/users"), log[node.parent_id].path
+            records.append(r)
     return [{"family": name, "errors": errors, "requests": len(log), "records": records, "foreign": foreign}]
 
 
@@ -447,6 +469,8 @@ def run_extract(name: str, fam: dict) -> list[dict]:
     from schemathesis.specs.openapi.stateful.links import get_all_links
 
     base = "http://127.0.0.1/api"
+    if fam.get("raw"):
+        return []  # a different source layout: covered live only
     schema = build_schema(fam).configure(base_url=base)
     op = schema["/users"]["POST"]
     real = {}
@@ -668,6 +692,8 @@ def py_live_verdicts(r: dict) -> set:
     bad = set()
     if not py_status_matches(r["key"], r["x"]["status"], r["keys"]):
         bad.add(("live-status", 0))
+    if r.get("src", "") != r.get("from", ""):
+        bad.add(("live-source", 0))
     for n, p in enumerate(r["params"], 1):
         v = py_eval(txt(p["expr"]), r["x"])
         if v is _MISSING:
@@ -824,6 +850,7 @@ def _expr_record(expr: str, xid: str, o: dict) -> dict:
 
 def _clean_live(r: dict) -> dict:
     return {"kind": "live", "key": r["key"], "keys": r["keys"], "x": r["x"], "body": dict(r["body"], strict=r["body"].get("strict", False)),
+            "src": r.get("src", ""), "from": r.get("from", ""),
             "params": [{"expr": p["expr"], "sent": p["sent"], "text": p["text"]} for p in r["params"]]}
 
 
@@ -952,6 +979,10 @@ def run(ctx: Ctx) -> Outcome:
             sig = "C10:%s:param:%s:%s" % (site, r["family"], expr_class(txt(p["expr"]), ""))
             summary = "family %s link %s: parameter %s = %r arrived as %r in '%s' (source: %s -> %d)" % (
                 r["family"], r["link"], p["name"], txt(p["expr"]), txt(p["text"]) if p["sent"] else None, r["derived"], txt(r["x"]["url"]), r["x"]["status"])
+        elif d[1] == "live-source":
+            sig = "C10:live:followed-from-another-operation:%s" % r["family"]
+            summary = "family %s: link %s (declared on POST %s) was followed from a response of POST %s: '%s'" % (
+                r["family"], r["link"], r["src"], r["from"], r["derived"])
         elif d[1] == "live-body":
             sig = "C10:%s:body:%s:%s" % (site, r["family"], "merge" if r["body"]["merge"] else "no-merge")
             summary = "family %s link %s: requestBody %s arrived as '%s'" % (r["family"], r["link"], json.dumps(dec(r["body"]["def"])), r["derived"])
